@@ -1,10 +1,90 @@
-"""End-to-end part of C08 (extended solvers on inputs with polytomies); placeholder
-until the ordered / unordered solver specifications are bound."""
+"""End-to-end part of C08: the extended solvers on inputs with polytomies return
+the optimum over all pairs of binary refinements, and every returned solution
+refers to binary trees that keep every clade, node name and colour and the
+original leaf data.  The refinements are the TLC-generated sets of
+Binarize.tla; the minimum over them is computed by TLC with the solver
+specifications (TraceOrdered / TraceUnordered, clause ClauseMinPoly)."""
+import multiprocessing
+
+from lib import gen, proj
+from . import super_common as sc
+
+CLAUSES = {"ClauseNoFailure", "ClauseRefinement", "ClauseMinPoly", "ClauseRefinementKeepsNamesAndClades",
+           "ClauseEmptyIffNoSolution", "ClauseValid", "ClauseCostRecount"}
 
 
-def run(ctx, A, rng, refs):
-    ctx.note("end-to-end optimum over refinements: not built yet")
+def poly_inputs(rng, refs, n, max_pairs=30):
+    """Random inputs with at least one polytomy; refinement pairs bounded."""
+    shapes = [s for s in gen.poly_shapes_upto(4)]
+    polys = [s for s in shapes if any(len(proj.children_of(s, u)) >= 3 for u in range(1, len(s) + 1))]
+    out = []
+    while len(out) < n:
+        if rng.random() < 0.5:
+            ot, st = rng.choice(polys), rng.choice(shapes)
+        else:
+            ot, st = rng.choice([s for s in shapes if len(proj.leaves_of(s)) >= 2]), rng.choice(polys)
+        if len(proj.leaves_of(ot)) < 2 or len(refs[ot]) * len(refs[st]) > max_pairs:
+            continue
+        fam = rng.choice(["ord", "un"])
+        lm = gen.random_leaf_map(rng, ot, st)
+        syn, ref = sc.random_syn(rng, fam, ot, rng.randint(1, 3), p_inconsistent=0.05)
+        c = rng.choice(sc.SUPER_COSTS)
+        out.append((fam, sc.sinput(ot, st, lm, c, syn)))
+    return out
+
+
+def _worker(chunk):
+    A = proj.api()
+    out = []
+    for fam, pinp, reflist, policy in chunk:
+        out.append((fam, pinp, [sc.run_solver_poly(A, fam, policy, pinp, reflist)]))
+    return out
+
+
+def run_poly(cases, refs, jobs=16):
+    work = []
+    for fam, pinp in cases:
+        reflist = [sc.refine_input(pinp, o, s) for o in sorted(refs[pinp["ot"]], key=lambda t: sorted(map(sorted, t)))
+                   for s in sorted(refs[pinp["st"]], key=lambda t: sorted(map(sorted, t)))]
+        for policy in ("ALL", "ANY"):
+            work.append((fam, pinp, reflist, policy))
+    size = max(1, len(work) // (jobs * 4))
+    chunks = [work[i:i + size] for i in range(0, len(work), size)]
+    with multiprocessing.get_context("fork").Pool(jobs) as pool:
+        out = []
+        for part in pool.imap(_worker, chunks):
+            out.extend(part)
+    return out
+
+
+def run(ctx, A, rng, refs, clauses=CLAUSES, n=None):
+    thorough = ctx.tier == "thorough"
+    cases = poly_inputs(rng, refs, n or (160 if thorough else 36))
+    results = run_poly(cases, refs)
+    for fam, pinp, events in results:
+        ctx.nontrivial.add(("poly", fam, pinp))
+    ev = results[0][2][0]
+    ctx.sample({"engine": "E2-poly", "input": ev["pin"], "refinement_pairs": len(ev["refs"]),
+                "returned": len(ev["sols"]), "costs": ev["costs"][:3]})
+    sc.validate(ctx, results, clauses)
+    ctx.stage("end-to-end polytomies")
 
 
 def replay(ctx, A, case):
-    return 2
+    event = case.get("event", case)
+    if event.get("op") != "poly":
+        return 2
+    from lib import mc, tlaval
+    from . import c08
+    pinp = sc.sinput_from_json(event["pin"])
+    refs = {}
+    for shape in {pinp["ot"], pinp["st"]}:
+        _, states = mc.explore(ctx, "Binarize", "replay", spec="SpecGen",
+                               constants={"PolyShapes": "<- MCPoly", "IgnoreRightBug": "FALSE"}, dump=True,
+                               mc_text=c08.shapes_text([shape]))
+        refs[shape] = [s["done"][0] for s in states if s["k"] == -2][0]
+    results = run_poly([(event["fam"], pinp)], refs, jobs=1)
+    for _, _, events in results:
+        print("observed:", {k: events[0][k] for k in ("policy", "exc", "costs", "notes")}, "solutions:", len(events[0]["sols"]))
+    sc.validate(ctx, results, CLAUSES, jobs=1)
+    return 1 if ctx.violations else 0
